@@ -372,6 +372,17 @@ def run_property(pid: str, props_file: str, streams: list[Stream], tier: str, se
             for a in axs:
                 if a.split(".")[-1] not in {x.split(".")[-1] for x in ALLOWED_AXIOMS}:
                     proof_broken.append(f"theorem {thm} depends on non-allow-listed axiom {a}")
+    coqchk_res = None
+    if ok and tier == "thorough" and os.environ.get("VERIF_NO_COQCHK") != "1":
+        mod = "Verif." + props_file[:-2].replace("/", ".")
+        rc, out = _sh(f"timeout 1500 coqchk -Q . Verif -o {mod} 2>&1", cwd=COQ, timeout=1600)
+        m = re.search(r"\* Axioms:(.*?)\n\s*\n\* ", out, flags=re.S)
+        ax = [a.strip() for a in (m.group(1).split("\n") if m else []) if a.strip() and a.strip() != "<none>"]
+        coqchk_res = {"ok": rc == 0 and "Modules were successfully checked" in out, "axioms": ax}
+        if not coqchk_res["ok"]:
+            proof_broken.append("coqchk rejected the compiled closure: " + out[-500:])
+        # coqchk -o lists the axioms of every library loaded by the closure (used or not): they are
+        # recorded in the evidence; the per-theorem gate is Print Assumptions above.
     # models must be compiled for the correspondence even if proofs broke
     model_ok = ok
     if not ok:
@@ -500,6 +511,7 @@ def run_property(pid: str, props_file: str, streams: list[Stream], tier: str, se
                              "CPython 3.12, /venv packages"] + (trusted_extra or []),
             "theorems": obl_names,
             "axioms_per_theorem": axioms,
+            "coqchk": coqchk_res,
             "translated_items": {k: v for k, v in tstat.items() if not needs or k in needs},
             "evaluations": total_eval,
             "distinct_nontrivial": len(nontrivial),
